@@ -158,6 +158,9 @@ pub struct Config {
     /// free runs: a Task effect / task takes this long, so that many of them are in flight at once
     #[serde(default)]
     pub slow_effect_us: u64,
+    /// the verdicts a "*" entry of a middleware script may take (free runs pick among them)
+    #[serde(default)]
+    pub mw_verdicts: Vec<String>,
 }
 fn store_name() -> String {
     "store".into()
@@ -373,7 +376,9 @@ impl SMiddleware {
         let v = if tbl == "*" {
             if given.is_empty() || given == "-" {
                 // free mode: pick one
-                ["C", "D", "B", "E"][(self.env.next_rand() % 4) as usize].to_string()
+                let all = ["C".to_string(), "D".to_string(), "B".to_string(), "E".to_string()];
+                let vs: &[String] = if self.env.cfg.mw_verdicts.is_empty() { &all } else { &self.env.cfg.mw_verdicts };
+                vs[(self.env.next_rand() % vs.len() as u64) as usize].clone()
             } else {
                 given
             }
